@@ -279,15 +279,18 @@ def skip_norm(draw):
     P = {"dtype": dt.name, "kind": kind, "B": B, "S": S, "D": D, "sym": sym, "opset": opset, "bias": bias,
          "skip_first": draw(st.booleans()), "bias_first": draw(st.integers(0, 3)) == 0, "eps": draw(st.sampled_from([1e-6, 1e-5, 1e-3, 0.1])),
          "sum_output": draw(st.booleans()), "near_miss": nm, "const_style": g.const_style,
-         "consts": draw(st.sampled_from(["inputs", "inputs", "consts"]))}
+         "consts": draw(st.sampled_from(["inputs", "inputs", "consts"])),
+         # the operators' default epsilon differs between ONNX (1e-5) and the fused contrib ops: leave the attribute out sometimes,
+         # and feed inputs whose variance is of the order of epsilon, where epsilon matters
+         "eps_absent": draw(st.integers(0, 3)) == 0, "input_scale": draw(st.sampled_from([1.0, 1.0, 0.1, 0.01, 0.001]))}
     shape, sshape = ([B, S, D], [Bs, Ss, D])
     if nm == "rank2":
         shape, sshape = ([S, D], [Ss, D])
-    x = g.inp("input", dt, sshape, shape)
+    x = g.inp("input", dt, sshape, shape, scale=P["input_scale"])
     skip_shape, skip_sshape = list(shape), list(sshape)
     if nm == "skip_broadcast":
         skip_shape[0], skip_sshape[0] = 1, 1
-    skip = g.inp("skip", dt, skip_sshape, skip_shape)
+    skip = g.inp("skip", dt, skip_sshape, skip_shape, scale=P["input_scale"])
     rs = np.random.default_rng(draw(st.integers(0, 1000)))
 
     def vec(name, shp, center=0.0):
@@ -312,6 +315,8 @@ def skip_norm(draw):
     axis = -1 if nm != "axis_other" else (rank - 2)
     if kind == "layer":
         attrs = {"axis": axis, "epsilon": P["eps"]}
+        if P["eps_absent"]:
+            del attrs["epsilon"]
         if draw(st.booleans()) or nm == "stash_type":
             attrs["stash_type"] = 1
         ins = [ssum, gamma]
@@ -324,6 +329,8 @@ def skip_norm(draw):
         P["attrs"] = sorted(attrs)
     elif kind == "rms_op":
         attrs = {"axis": axis, "epsilon": P["eps"]}
+        if P["eps_absent"]:
+            del attrs["epsilon"]
         if draw(st.booleans()) or nm == "stash_type":
             attrs["stash_type"] = 1
         if nm == "axis_other":
@@ -872,10 +879,16 @@ def fused_matmul(draw):
     rank = draw(st.sampled_from([2, 2, 3, 4]))
     M, K, N = (draw(st.sampled_from([1, 2, 3, 4, 8])) for _ in range(3))
     batch = [draw(st.sampled_from([1, 2, 3])) for _ in range(rank - 2)]
-    nm = draw(st.sampled_from([None] * 8 + ["perm_other", "div_vector", "div_input", "div_rank3", "int32", "extra_consumer", "rank1"]))
+    nm = draw(st.sampled_from([None] * 8 + ["perm_other", "div_vector", "div_input", "div_rank3", "int32", "extra_consumer", "rank1",
+                                            "perm_batch_and_last", "perm_batch_and_last"]))
     if nm == "int32":
         dt = np.dtype(np.int32)
+    if nm == "perm_batch_and_last":
+        rank = 4
+        batch = [draw(st.sampled_from([2, 2, 3])) for _ in range(2)]
     ta, tb = draw(st.booleans()), draw(st.booleans())
+    if nm == "perm_batch_and_last" and not (ta or tb):
+        ta = True
     div = draw(st.sampled_from(["none", "none", "scalar0d", "scalar1", "scalar11"]))
     tout = rank == 2 and nm != "div_rank3" and draw(st.integers(0, 3)) == 0
     src_fused = dt != np.dtype(np.int32) and draw(st.integers(0, 3)) == 0  # source already uses com.microsoft.FusedMatMul
@@ -902,14 +915,19 @@ def fused_matmul(draw):
             return g.op("Transpose", v)
         return g.op("Transpose", v, perm=perm)
 
+    def operand_batch_perm(name, rows, cols):
+        # stored as [b1, b0, cols, rows], brought to [b0, b1, rows, cols] by perm [1, 0, 3, 2]: more than a last-two swap
+        shp = [batch[1], batch[0], cols, rows]
+        return g.op("Transpose", g.inp(name, dt, shp, shp, kind=kind), perm=[1, 0, 3, 2])
+
     if nm == "perm_other" and rank == 3:
         # a is stored as [M, batch, K] and brought to [batch, M, K]: not a last-two swap, must not become transA
         a = g.op("Transpose", g.inp("a", dt, [M, batch[0], K], [M, batch[0], K], kind=kind), perm=[1, 0, 2])
     else:
         if nm == "perm_other":
             nm = P["near_miss"] = None
-        a = operand("a", M, K, ta)
-    b = operand("b", K, N, tb)
+        a = operand_batch_perm("a", M, K) if nm == "perm_batch_and_last" and ta else operand("a", M, K, ta)
+    b = operand_batch_perm("b", K, N) if nm == "perm_batch_and_last" and tb else operand("b", K, N, tb)
     if src_fused:
         attrs = {}
         if P["alpha"] != 1.0:
